@@ -508,3 +508,43 @@ func H_callNames(v int) {
 	verifAssert(err == nil, "C02: call failed")
 	verifAssert(out == calls[v].want+x, "C02: a call reached another template than the one it names")
 }
+
+// H_switchLit: {switch $a} over literal cases of every kind (int, string, float, bool, null,
+// a multi-value case) with $a of kind ka (symbolic payload): the first case holding a value equal
+// to $a in the language's sense (an integral float equals the int) is taken, else the default.
+func H_switchLit(ka int) {
+	m := data.Map{}
+	a := c01Bind(m, "a", ka)
+	tofu, cerr := verifCompileNoCheck("{namespace n}\n/** @param? a */\n{template .t autoescape=\"false\"}\n" +
+		"{switch $a}{case 1}i{case 'p'}s{case 2.5}f{case true}t{case null}n{case 3, 'q', 4.0}m{default}d{/switch}|" +
+		"{switch $a}{case 2}I{case ''}E{/switch}\n{/template}\n")
+	verifAssert(cerr == nil, "C02: switch does not parse")
+	out, err := verifRender(tofu, "n.t", m)
+	verifObserve("out", out)
+	if _, undef := a.(data.Undefined); undef {
+		return // (switching on an undefined value: covered by H_program)
+	}
+	verifAssert(err == nil, "C02: switch failed to render")
+	want := "d"
+	cases := []struct {
+		vals []data.Value
+		tag  string
+	}{{[]data.Value{data.Int(1)}, "i"}, {[]data.Value{data.String("p")}, "s"}, {[]data.Value{data.Float(2.5)}, "f"}, {[]data.Value{data.Bool(true)}, "t"},
+		{[]data.Value{data.Null{}}, "n"}, {[]data.Value{data.Int(3), data.String("q"), data.Float(4.0)}, "m"}}
+pick:
+	for _, c := range cases {
+		for _, v := range c.vals {
+			if refEquals(a, v) {
+				want = c.tag
+				break pick
+			}
+		}
+	}
+	want += "|"
+	if refEquals(a, data.Int(2)) {
+		want += "I"
+	} else if refEquals(a, data.String("")) {
+		want += "E"
+	}
+	verifAssert(out == want, "C02: switch does not take the first case equal to the value")
+}
